@@ -10,7 +10,7 @@ ID = "C48"
 LEAN_PROPS = "Tahoe.Props.C48"
 DRIVER = "C48"
 GENERATED = ["config"]
-SOURCES = ["src/allmydata/util/time_format.py", "src/allmydata/util/abbreviate.py", "src/allmydata/client.py"]
+SOURCES = ["src/allmydata/util/time_format.py", "src/allmydata/util/abbreviate.py", "src/allmydata/client.py", "src/allmydata/storage/expirer.py"]
 DESIGN_REF = "DESIGN.md §2 C48"
 TECHNIQUE = ("Lean 4 theorems over character-level recognisers equivalent to the three regexes (abstract alphabet: digit value, "
              "whitespace, newline, ASCII code point, U+017F, U+0131, other) and an exact integer model of the float arithmetic of "
@@ -20,17 +20,23 @@ TECHNIQUE = ("Lean 4 theorems over character-level recognisers equivalent to the
 LEVEL_TEXT = ("Completeness (every documented spelling, any number / whitespace / case, gets the documented value), soundness "
               "(anything accepted has the documented shape and value), midnight-UTC dates and print-then-parse for sizes below "
               "1024 are proved in Lean for all inputs; print-then-parse for sizes >= 1024 is false of the code (decimal point) and "
-              "is kept as a proved counterexample plus the guarded partial theorem.")
+              "is kept as a proved counterexample plus the guarded partial theorem.  Each parser accepts exactly the documented "
+              "grammar (iff theorems); the client.py glue from the [storage] keys to the parsers is modelled and proved to route each "
+              "key to its parser, to stop node start on a malformed value and to start on a documented configuration.")
 LEVEL_NOTE = ("Lean kernel + standard axioms; the model is hand-written and tied by correspondence; characters are abstracted to "
               "classes by harness sym_of (Python str.isdecimal/isspace = re's \\d/\\s), validated on all code points in the thorough tier.")
-RULE = ("one case = one call of parse_duration / parse_date / parse_abbreviated_size on a generated string, or one "
+RULE = ("one case = one generated tahoe.cfg [storage] section through read_config + get_anonymous_storage_server, or one call of parse_duration / parse_date / parse_abbreviated_size on a generated string, or one "
         "abbreviate_space→parse_abbreviated_size round trip; distinct = distinct (function, argument); non-trivial = the argument "
         "contains at least one digit (so the number part of the grammar is entered); the date cases are additionally run under "
         "each process time zone of ZONES (TZ + time.tzset), one case per (date, zone)")
 TRUSTED = ["lean/Tahoe/Config/Parse.lean is a hand transcription of the four functions (regexes as greedy recognisers, justified in its header)",
            "harness/props/c48.py sym_of: the abstraction of a Python character to the model's alphabet",
-           "harness/extract_parts/config.py: unit tables and pattern strings recovered from the functions' ASTs"]
-ASSUMPTIONS = ["arguments are str (tahoe.cfg values); parse_abbreviated_size(None) behaves like ''",
+           "harness/extract_parts/config.py: unit tables and pattern strings recovered from the functions' ASTs",
+           "lean/Tahoe/Config/Glue.lean is a hand transcription of _Client.get_anonymous_storage_server + LeaseCheckingCrawler.__init__; "
+           "the harness abstracts configparser booleans / the mode string to classes (bool_class, mode_class) and drives the real "
+           "read_config + get_anonymous_storage_server on a _Client built without Node.__init__ (no tubs, no introducer)"]
+ASSUMPTIONS = ["glue: each value is written on one physical line of tahoe.cfg without '%' (no continuation lines, no interpolation)",
+               "arguments are str (tahoe.cfg values); parse_abbreviated_size(None) behaves like ''",
                "abbreviate_space is given an int 0 <= s < 2**1000 (no float overflow); None -> 'unknown' not modelled",
                "'accepted and read as something else' is judged against the most permissive reading of the documentation: any Unicode "
                "decimal digit counts as its digit, any Unicode whitespace as a space, letters compare by str.upper(); surrounding "
@@ -536,11 +542,186 @@ def timezone_cases(rng, n):
     return cases
 
 
+# ------------------------------------------------------------------ client.py glue: tahoe.cfg [storage] keys → parsers → StorageServer
+TRUE_WORDS = ["1", "yes", "true", "on", "True", "YES", "On"]
+FALSE_WORDS = ["0", "no", "false", "off", "False", "NO", "Off"]
+BAD_BOOL = ["maybe", "2", "", "t", "enabled", "yes please"]
+GLUE_KEYS = [("ro", "readonly", "B"), ("rs", "reserved_space", "V"), ("dd", "debug_discard", "B"), ("en", "expire.enabled", "B"),
+             ("mode", "expire.mode", "M"), ("old", "expire.override_lease_duration", "V"), ("cut", "expire.cutoff_date", "V"),
+             ("imm", "expire.immutable", "B"), ("mut", "expire.mutable", "B")]
+_VALUE_FN = {"rs": "size", "old": "dur", "cut": "date"}
+
+
+def bool_class(v):
+    v = v.strip().lower()       # configparser: value.strip(), then BOOLEAN_STATES[value.lower()]
+    return "t" if v in ("1", "yes", "true", "on") else "f" if v in ("0", "no", "false", "off") else "bad"
+
+
+def mode_class(v):
+    v = v.strip()
+    return "age" if v == "age" else "cutoff" if v == "cutoff-date" else "other"
+
+
+def glue_value_ok(v):
+    """values the glue model covers: one physical line, no interpolation syntax"""
+    return not any(c in v for c in "\n\r%") and not any(c in "\x0b\x0c\x1c\x1d\x1e\x85\u2028\u2029" for c in v)
+
+
+def gen_glue_cfg(rng):
+    cfg = {}
+    for short, key, kind in GLUE_KEYS:
+        r = rng.random()
+        if kind == "B":
+            if r < 0.55:
+                continue
+            cfg[short] = rng.choice(TRUE_WORDS + FALSE_WORDS) if r < 0.93 else rng.choice(BAD_BOOL)
+        elif kind == "M":
+            if r < 0.3:
+                continue
+            cfg[short] = "age" if r < 0.6 else "cutoff-date" if r < 0.92 else rng.choice(["Age", "cutoff", "bogus", "", "cutoff_date", "age "])
+        else:
+            if r < (0.25 if short != "cut" else 0.15):
+                continue
+            fn = _VALUE_FN[short]
+            for _ in range(20):
+                q = rng.random()
+                v = gen_documented(rng, fn)[0] if q < 0.6 else gen_variant(rng, fn) if q < 0.7 else gen_malformed(rng, fn)
+                if glue_value_ok(v):
+                    break
+            else:
+                v = ""
+            cfg[short] = rand_ws(rng, [" ", "\t"], 2) + v + rand_ws(rng, [" ", "\t"], 2)
+    return cfg
+
+
+def glue_cfg_text(cfg):
+    lines = ["[storage]", "enabled = true"]
+    for short, key, kind in GLUE_KEYS:
+        if short in cfg:
+            lines.append("%s = %s" % (key, cfg[short]))
+    return "\n".join(lines) + "\n"
+
+
+def glue_line(cfg):
+    toks = []
+    for short, key, kind in GLUE_KEYS:
+        if short not in cfg:
+            toks.append(short + "=~")
+        elif kind == "B":
+            toks.append(short + "=" + bool_class(cfg[short]))
+        elif kind == "M":
+            toks.append(short + "=" + mode_class(cfg[short]))
+        else:
+            toks.append(short + "=" + (",".join(sym_of(c) for c in cfg[short]) or "-"))
+    return "glue " + " ".join(toks)
+
+
+_GLUE_DIR = []
+
+
+def glue_impl(cfg):
+    """The real path: tahoe.cfg on disk → client.read_config → _Client.get_anonymous_storage_server."""
+    import shutil
+    import tempfile
+    import common
+    from allmydata import client
+    from twisted.application import service
+    if not _GLUE_DIR:
+        common.ensure_dirs()
+        _GLUE_DIR.append(tempfile.mkdtemp(prefix="c48glue-%d-" % os.getpid(), dir=common.WORK))
+    base = tempfile.mkdtemp(dir=_GLUE_DIR[0])
+    try:
+        with open(os.path.join(base, "tahoe.cfg"), "w", encoding="utf-8", newline="\n") as f:
+            f.write(glue_cfg_text(cfg))
+        try:
+            config = client.read_config(base, "client.port")
+        except Exception as e:
+            return "read_config:" + type(e).__name__
+        c = client._Client.__new__(client._Client)
+        service.MultiService.__init__(c)
+        c.config = config
+        c.get_config = config.get_config        # as Node.__init__ does
+        c.nodeid = b"n" * 20
+        c.stats_provider = None
+        try:
+            ss = c.get_anonymous_storage_server()
+        except Exception as e:
+            return type(e).__name__
+        lc = ss.lease_checker
+        return "started:%d:%s:%s:%s:%s:%s:%s:%s" % (
+            ss.reserved_space, "T" if lc.expiration_enabled else "F", {"age": "age", "cutoff-date": "cutoff"}.get(lc.mode, "other"),
+            lc.override_lease_duration, lc.cutoff_date, "T" if "immutable" in lc.sharetypes_to_expire else "F",
+            "T" if "mutable" in lc.sharetypes_to_expire else "F", "T" if ss.readonly_storage else "F")
+    finally:
+        shutil.rmtree(base, ignore_errors=True)
+
+
+def monitor_glue(ctx, cfg, out):
+    """From the statement: each documented key means its documented value; a malformed value stops node start."""
+    case = {"fn": "glue", "cfg": cfg}
+    started = out.startswith("started:")
+    f = out.split(":") if started else None
+    mode = mode_class(cfg["mode"]) if "mode" in cfg else None
+    for short, fn, key in (("rs", "size", "reserved_space"), ("old", "dur", "expire.override_lease_duration"),
+                           ("cut", "date", "expire.cutoff_date")):
+        if short not in cfg:
+            continue
+        v = cfg[short].strip()
+        if short == "cut" and mode != "cutoff":
+            continue                      # the docs only give the date a meaning in cutoff-date mode
+        want = 0 if (short == "rs" and v == "") else ref_value(fn, v)
+        if want is None:
+            if started:
+                ctx.violation("node starts although [storage]%s = %r has no documented reading (%s)" % (key, cfg[short], out),
+                              case, "glue-%s-malformed-node-starts" % key, out)
+            continue
+        if started:
+            got = {"rs": f[1], "old": f[4], "cut": f[5]}[short]
+            if short == "old" and mode == "cutoff":
+                continue                  # not used in cutoff-date mode
+            if got != str(want):
+                ctx.violation("[storage]%s = %r configures %s, documented value %d" % (key, cfg[short], got, want), case,
+                              "glue-%s-misvalued" % key, out)
+    if started and "rs" not in cfg and f[1] != "0":
+        ctx.violation("no reserved_space but %s bytes reserved" % f[1], case, "glue-reserved_space-default", out)
+
+
+def eval_glue(ctx, cfgs):
+    impl = []
+    try:
+        for cfg in cfgs:
+            out = glue_impl(cfg)
+            impl.append(out)
+            monitor_glue(ctx, cfg, out)
+            ctx.case(("glue", glue_cfg_text(cfg)))
+            ctx.count("glue:" + out.split(":")[0])
+    finally:
+        if _GLUE_DIR:
+            import shutil
+            shutil.rmtree(_GLUE_DIR.pop(), ignore_errors=True)
+    ctx.compare("tahoe.cfg [storage] through read_config + _Client.get_anonymous_storage_server",
+                [{"fn": "glue", "cfg": c} for c in cfgs], impl, ctx.model([glue_line(c) for c in cfgs]))
+    if cfgs:
+        ctx.sample({"tahoe.cfg": glue_cfg_text(cfgs[-1]), "impl": impl[-1]})
+
+
+GLUE_CORPUS = [
+    {}, {"rs": "1G"}, {"rs": "1 G", "en": "true", "mode": "age", "old": "2 mo", "mut": "no"}, {"rs": "1.5G"}, {"rs": ""},
+    {"en": "true"}, {"en": "maybe"}, {"mode": "cutoff-date", "cut": "2009-02-31"}, {"mode": "cutoff-date"},
+    {"mode": "cutoff-date", "cut": "2009-02-21", "old": "1ſ"}, {"mode": "cutoff-date", "cut": " 2009-02-21 ", "old": "7days", "en": "on"},
+    {"mode": "bogus"}, {"mode": "age", "cut": "junk"}, {"rs": "10K # comment"}, {"old": "1 month 15 days"}, {"old": "45 days # was 31"},
+    {"old": "3 mon"}, {"rs": "1024 Ki"}, {"rs": "5Gi", "ro": "yes"}, {"mode": "cutoff-date", "cut": "2009-01-16T05:00:00"},
+    {"imm": "off", "mut": "0", "dd": "1"}, {"dd": "x"}, {"en": "false", "mode": "Age"},
+]
+
+
 def run(ctx):
     if ctx.replay:
         c = ctx.replay["case"]
         if c["fn"] in ("rt", "abbr"):
             eval_roundtrips(ctx, [(bool(c["si"]), int(c["n"]))])
+        elif c["fn"] == "glue":
+            eval_glue(ctx, [c["cfg"]])
         elif "tz" in c:
             doc = c.get("documented")
             eval_timezones(ctx, [(c["s"], (doc[0], int(doc[1])) if doc else None)], [None, c["tz"]])
@@ -581,6 +762,8 @@ def run(ctx):
     eval_parse_cases(ctx, grid, "spelling grid")
     # 2b. dates under several process time zones (the documented moment is midnight UTC wherever the node runs)
     eval_timezones(ctx, timezone_cases(rng, ctx.budget(120, 3000)), ZONES)
+    # 2c. the client.py glue on generated tahoe.cfg files
+    eval_glue(ctx, GLUE_CORPUS + [gen_glue_cfg(rng) for _ in range(ctx.budget(400, 12000))])
     # 3. sizes through print-then-parse
     eval_roundtrips(ctx, [(rng.random() < 0.5, gen_size(rng)) for _ in range(ctx.budget(4000, 150000))])
     if ctx.tier == "thorough":
